@@ -248,7 +248,8 @@ def apply_op(ex, g, nodes, edges, step, pool_extra, forced=None):
         opool = [nodes[0]] + list(pool_extra) if nodes else list(pool_extra)
         other, onodes, oedges = build(ex, opool[:2], f'o{step}', False)
         osnap = abstract(other)
-        if ex.flag(f'plus{step}'):
+        plus = bool(ex.flag(f'plus{step}'))
+        if plus:
             before = abstract(g)
             res = g + other
             ex.check(res is not g, 'plus:new-graph')
@@ -267,6 +268,16 @@ def apply_op(ex, g, nodes, edges, step, pool_extra, forced=None):
                     edges = edges | {p}
         o2 = abstract(other)
         ex.check(same_nodes(o2[0], osnap[0]) and same_edges(o2[1], osnap[1]), 'merge:right-operand-unchanged')
+        # independence afterwards: an edge added to one of (result, right operand) does not show in the other
+        if len(onodes) >= 2 and not plus and not any(p[0] is onodes[0] and p[1] is onodes[1] for p in oedges):
+            if ex.flag(f'edit-right-operand-after-merge{step}'):
+                other.add_dependency(onodes[0], on=onodes[1])
+                observers_agree(ex, g, nodes, edges, 'merge:result-after-editing-the-right-operand')
+            elif not any(p[0] is onodes[0] and p[1] is onodes[1] for p in edges):
+                g.add_dependency(onodes[0], on=onodes[1])
+                edges = edges | {(onodes[0], onodes[1])}
+                o3 = abstract(other)
+                ex.check(same_nodes(o3[0], osnap[0]) and same_edges(o3[1], osnap[1]), 'merge:right-operand-after-editing-the-result')
     elif op in ('copy', 'invert'):
         h = g.copy() if op == 'copy' else g.invert()
         hn = list(nodes)
@@ -408,7 +419,16 @@ def make_flatten(n_outer, n_inner, deep):
                 if any(a is p for p in all_plain) and any(b is p for p in all_plain) and a is not b}
         if any(a is b for (a, b) in reach(None, ves)):
             return          # cyclic through nesting
+        # flattening the outer graph must leave the nested graph OBJECTS (shared with the caller, with copies...) as they were
+        sub_before = abstract(sub)
+        subsub_before = abstract(subsub) if subsub is not None else None
         g.flatten()
+        sa = abstract(sub)
+        ex.check(same_nodes(sa[0], sub_before[0]) and same_edges(sa[1], sub_before[1]), 'flatten:nested-graph-objects-are-not-modified')
+        if subsub is not None:
+            ssa = abstract(subsub)
+            ex.check(same_nodes(ssa[0], subsub_before[0]) and same_edges(ssa[1], subsub_before[1]),
+                     'flatten:nested-graph-objects-are-not-modified')
         err = rep_ok(g)
         ex.check(err is None, 'flatten:representation-invariant', detail=str(err))
         if err is not None:
@@ -503,7 +523,7 @@ def jobs(tier):
         plan = [('ops', dict(n=0, self_loops=False, steps=2)), ('ops', dict(n=1, self_loops=True, steps=2)),
                 ('ops', dict(n=2, self_loops=True, steps=1)), ('ops', dict(n=3, self_loops=False, steps=1)),
                 ('flatten', dict(n_outer=2, n_inner=0, deep=False)), ('flatten', dict(n_outer=2, n_inner=1, deep=False)),
-                ('flatten', dict(n_outer=2, n_inner=2, deep=False)),
+                ('flatten', dict(n_outer=2, n_inner=2, deep=False)), ('flatten', dict(n_outer=1, n_inner=1, deep=True)),
                 ('rlist', dict(n=0, steps=2)), ('rlist', dict(n=2, steps=1)), ('rlist', dict(n=3, steps=1))]
     else:
         plan = [('ops', dict(n=0, self_loops=False, steps=2)), ('ops', dict(n=1, self_loops=True, steps=2)),
